@@ -1027,6 +1027,9 @@ func main() {
 				if s.Kind == "comp" {
 					s.Https = gen()
 				}
+				if (s.Kind == "dyn" || s.Kind == "tcp") && r.Intn(4) == 0 {
+					s.CloseAt = []int{-100, -250, 100}[r.Intn(3)]
+				}
 				sc.Servers = append(sc.Servers, s)
 			}
 			scs = append(scs, sc)
